@@ -24,6 +24,7 @@ fn main() {
     let pid: &'static str = Box::leak(which.chars().take(3).collect::<String>().to_uppercase().into_boxed_str());
     if pid.starts_with('C') && which.len() == 3 {
         obs::start_watchdog(pid);
+        obs::install_crash_reporter(pid);
     }
     let code = match which {
         "c01" => c01::run(tier),
